@@ -66,6 +66,16 @@ def abandoned(tier, rng):
                 c.add(b"NOOP\r\n")
                 for seg in ("one", "line"):
                     cases.append(c.case(seg=seg, rng=rng) + "\tTAG=incomplete:0")
+        # a LAST chunk announcing more octets than will ever arrive — sizes around the 32- and 64-bit boundaries included — and
+        # then nothing but a few octets and the end of the connection: the message begun by the first chunk is incomplete
+        for size in (9, 4294967295, 4294967296, 9223372036854775807, 9223372036854775808, 18446744073709551615, 18446744073709551616):
+            for tail in (b"", b"xyz"):
+                c = g.Conv(dict(lmtp=lm, lmtpsess=rng.choice([0, 1]) if lm else 0))
+                P.envelope(c, bool(lm))
+                c.add(b"BDAT 5\r\nhello", DATA=g.ddec(ret="prop"))
+                c.add(b"BDAT %d LAST\r\n" % size + tail)
+                for seg in ("one", "line"):
+                    cases.append(c.case(seg=seg, rng=rng) + "\tTAG=incomplete:0")
     return cases
 
 
